@@ -134,7 +134,15 @@ def exported(model):
 
 def affected_by_type(model, tname):
     """Exported interfaces from whose signature the named type is reachable."""
-    return [i["name"] for k, i in exported(model) if tname in iface_reach(model, i)]
+    out = [i["name"] for k, i in exported(model) if tname in iface_reach(model, i)]
+    # C++: the out-of-line member functions of a class are exported interfaces too (implicit `this` parameter), and so are
+    # its static data members
+    for t in model["types"]:
+        if (t.get("methods") or any(m.get("static") for m in t.get("members", []))) \
+                and tname in reach_from_names(model, [t["name"]]):
+            out += ["%s::%s" % (t["name"], me["name"]) for me in t.get("methods", []) if not me.get("inline")]
+            out += ["%s::%s" % (t["name"], m["name"]) for m in t.get("members", []) if m.get("static")]
+    return out
 
 
 def reachable_types(model):
@@ -229,7 +237,7 @@ def render_typedef(model, t, cxx):
     out = []
     if k in ("struct", "union", "class"):
         kw = k if (cxx or k != "class") else "struct"
-        head = kw + " " + t.get("cname", t["name"])
+        head = ("template<> " if t.get("tpl") else "") + kw + " " + t.get("cname", t["name"])
         if t.get("bases"):
             head += " : " + ", ".join(
                 (b.get("access", "public") + " " + ("virtual " if b.get("virtual") else "") + _tag(model, b["name"], True))
@@ -246,7 +254,7 @@ def render_typedef(model, t, cxx):
             if me.get("static"):
                 pre += "static "
             out.append("  " + pre + decl(model, me["ret"], me["name"] + "(" + ps + ")", cxx)
-                       + (" const" if me.get("const") else "") + ";")
+                       + (" const" if me.get("const") else "") + (" { return 0; }" if me.get("inline") else ";"))
         out.append("};")
     elif k == "enum":
         head = "enum " + ("class " if t.get("scoped") else "") + t.get("cname", t["name"])
@@ -287,7 +295,11 @@ def render_header(model, where=None, guard="TYPES_H", blank=0):
     for t in sel:
         if t["kind"] in ("struct", "union", "class", "opaque"):
             kw = "struct" if t["kind"] == "opaque" or (t["kind"] == "class" and not cxx) else t["kind"]
-            out += _ns_wrap(t, [kw + " " + t["name"] + ";"])
+            if t.get("tpl"):
+                out += _ns_wrap(t, ["template<typename T> %s %s;" % (kw, t["name"].split("<")[0]),
+                                    "template<> %s %s;" % (kw, t["name"])])
+            else:
+                out += _ns_wrap(t, [kw + " " + t["name"] + ";"])
     for t in sel:
         if t["kind"] != "opaque":
             out += _ns_wrap(t, render_typedef(model, t, cxx))
@@ -404,6 +416,8 @@ def render_tu(model, k, headers=("types.h",), order=None, blank=0, comments=Fals
         if k == 0:
             for t in model["types"]:
                 for me in t.get("methods", []):
+                    if me.get("inline"):
+                        continue
                     ps = ", ".join(decl(model, p["type"], p["name"], True) for p in me["params"])
                     q = (t["ns"] + "::" if t.get("ns") else "") + t["name"] + "::" + me["name"]
                     out.append(decl(model, me["ret"], q + "(" + ps + ")", True) + (" const" if me.get("const") else ""))
